@@ -80,7 +80,6 @@ theorem active_enabled {cfg : Cfg} (wf : WF cfg) {s : State} (h : Inv cfg s) {i 
     unfold stepTask
     rw [hi]
     cases p <;> simp [free] at hfp <;> simp at hp
-    · exact absurd hi (hnc i)
     · -- tAcq: the tensor lock is free because nobody is inside a tensor section
       have hT : wsum (fT cfg (cfg.obj i)) 0 s.tasks = 0 := wsum_eq_zero _ _ _ (by
         intro k q hk; have h1 := hnf k q hk; have h2 := hnw k; have h3 := hnc k
@@ -90,6 +89,7 @@ theorem active_enabled {cfg : Cfg} (wf : WF cfg) {s : State} (h : Inv cfg s) {i 
       have := h.l.tl (cfg.obj i) (wf.obj_lt i hil); rw [hT] at this
       simp only [List.getD_eq_getElem?_getD] at this ⊢
       cases hc : s.tLocks[cfg.obj i]?.getD false <;> simp [hc] at this ⊢
+    · exact absurd hi (hnc i)
     · exact absurd hi (hnw i)
 
 
